@@ -118,8 +118,10 @@ class PoolWakeState {
   void enterSleep(int32_t threadIdx) {
     int32_t group = threadIdx / groupSize_;
     int32_t bit = threadIdx % groupSize_;
+    DISPENSO_VERIF_POINT("ws.enterSleep.fetch_or", &groupStates_[static_cast<size_t>(group)].sleepMask);
     groupStates_[static_cast<size_t>(group)].sleepMask.fetch_or(
         uint64_t{1} << bit, std::memory_order_release);
+    DISPENSO_VERIF_POINT("ws.enterSleep.total_add", &totalSleeping_);
     totalSleeping_.fetch_add(1, std::memory_order_relaxed);
   }
 
@@ -129,8 +131,10 @@ class PoolWakeState {
   void exitSleep(int32_t threadIdx) {
     int32_t group = threadIdx / groupSize_;
     int32_t bit = threadIdx % groupSize_;
+    DISPENSO_VERIF_POINT("ws.exitSleep.fetch_and", &groupStates_[static_cast<size_t>(group)].sleepMask);
     groupStates_[static_cast<size_t>(group)].sleepMask.fetch_and(
         ~(uint64_t{1} << bit), std::memory_order_relaxed);
+    DISPENSO_VERIF_POINT("ws.exitSleep.total_sub", &totalSleeping_);
     totalSleeping_.fetch_sub(1, std::memory_order_relaxed);
   }
 
@@ -142,6 +146,7 @@ class PoolWakeState {
     int32_t group = threadIdx / groupSize_;
     int32_t bit = threadIdx % groupSize_;
     uint64_t bitMask = uint64_t{1} << bit;
+    DISPENSO_VERIF_POINT("ws.tryClaim.fetch_and", &groupStates_[static_cast<size_t>(group)].sleepMask);
     uint64_t prev = groupStates_[static_cast<size_t>(group)].sleepMask.fetch_and(
         ~bitMask, std::memory_order_acq_rel);
     return (prev & bitMask) != 0;
@@ -183,6 +188,7 @@ class PoolWakeState {
   }
   // Number of threads currently sleeping across all groups.
   int32_t totalSleeping() const {
+    DISPENSO_VERIF_POINT("ws.totalSleeping.load", &totalSleeping_);
     return totalSleeping_.load(std::memory_order_relaxed);
   }
 
@@ -221,6 +227,7 @@ class PoolWakeState {
   // Wakes one target group: bumps the group's epoch and issues bumpAndWakeN
   // only if the sleepMask is non-zero. Called by cascade-host lambdas.
   void cascadeWake(int32_t targetGroup) {
+    DISPENSO_VERIF_POINT("ws.cascadeWake.mask_load", &groupStates_[static_cast<size_t>(targetGroup)].sleepMask);
     uint64_t mask =
         groupStates_[static_cast<size_t>(targetGroup)].sleepMask.load(std::memory_order_relaxed);
     auto& waiter = waiterFor(targetGroup * groupSize_);
